@@ -5,4 +5,6 @@ ProgramsMC == { <<"tx">>, <<"close">>, <<"close", "close">>, <<"tx", "tx">>, <<"
 RECURSIVE SeqsUpTo(_, _)
 SeqsUpTo(S, n) == IF n = 0 THEN {<<>>} ELSE SeqsUpTo(S, n - 1) \cup {Append(s, x) : s \in SeqsUpTo(S, n - 1), x \in S}
 PeerScriptsMC == SeqsUpTo(Items, 2)
+ProgramsQuick == { <<"tx">>, <<"close">>, <<"close", "tx">>, <<"tx", "close">>, <<"serve", "rx">> }
+PeerScriptsQuick == SeqsUpTo(Items \ {"stanza"}, 1) \cup {<<"stanza_reply", "close">>, <<"stanza", "stanza_herr">>}
 =============================================================================
